@@ -76,6 +76,14 @@ Proof.
   destruct (a mod 2 ^ (k - 1) =? 0); lia.
 Qed.
 
+Lemma blen_le_iff' a k : a <> 0 -> 0 <= k -> Z.abs a <= 2 ^ k -> blen (Z.abs a) <= k + 1.
+Proof.
+  intros Ha Hk H. destruct (blen_bounds (Z.abs a) ltac:(lia)) as [[H1 _] H3].
+  destruct (Z.le_gt_cases (blen (Z.abs a)) (k + 1)) as [|G]; [assumption|].
+  assert (2 ^ (k + 1) <= 2 ^ (blen (Z.abs a) - 1)) by (apply Z.pow_le_mono_r; lia).
+  rewrite Z.pow_add_r in H0 by lia. pose proof (pow2_pos k Hk). lia.
+Qed.
+
 Section Encode.
 Variable P : enc_params.
 Hypothesis HMB : 1 <= MB P.
@@ -215,17 +223,16 @@ Proof.
   assert (Hman : (if a =? 1 then 0 else (a * 2 ^ (W P - L + 1)) mod 2 ^ W P) = t * 2 ^ (j + 1 - k)).
   { replace (j + 1 - k) with (W P - L + 1) by (unfold j, k; lia).
     destruct (Z.eqb_spec a 1) as [E|E].
-    - assert (L = 1) by (unfold L; rewrite E; reflexivity). unfold t. rewrite E, H. reflexivity.
-    - replace a with (t + 2 ^ (L - 1)) by (unfold t; lia).
-      rewrite Z.mul_add_distr_r, <- pow2_split by lia. replace (L - 1 + (W P - L + 1)) with (W P) by lia.
-      rewrite <- (Z.mul_1_l (2 ^ W P)) at 1. rewrite Z.mod_add by (pose proof (pow2_pos (W P)); lia).
-      apply Z.mod_small. split; [pose proof (pow2_pos (W P - L + 1)); nia|].
-      replace (W P) with (L - 1 + (W P - L + 1)) at 2 by lia. rewrite pow2_split by lia.
-      pose proof (pow2_pos (W P - L + 1) ltac:(lia)). nia. }
-  replace (W P - (W P - L) + 1) with (W P - L + 1) in * by lia. rewrite Hman.
+    - assert (HLe : L = 1) by (unfold L; rewrite E; reflexivity). unfold t. rewrite E, HLe. reflexivity.
+    - pose proof (pow2_pos (W P - L + 1) ltac:(lia)) as Hpw.
+      assert (EW : 2 ^ W P = 2 ^ (L - 1) * 2 ^ (W P - L + 1)) by (rewrite <- pow2_split by lia; f_equal; lia).
+      assert (Ea : a * 2 ^ (W P - L + 1) = t * 2 ^ (W P - L + 1) + 1 * 2 ^ W P).
+      { unfold t. rewrite Z.mul_sub_distr_r, EW. ring. }
+      rewrite Ea, Z.mod_add by (pose proof (pow2_pos (W P)); lia).
+      apply Z.mod_small. split; [nia|]. rewrite EW. nia. }
+  rewrite Hman.
   replace (W P - MB P) with (j + 1) by (unfold j; lia).
-  replace (W P - MB P - 1) with j by (unfold j; lia).
-  assert (Hjk : 0 <= j + 1 - k <= j + 1) by (unfold j, k; lia).
+  assert (Hjk : 0 <= j + 1 - k) by (unfold j, k; lia).
   assert (Hx : 0 <= t * 2 ^ (j + 1 - k)) by (pose proof (pow2_pos (j + 1 - k)); nia).
   rewrite round_bits_of_eq by (unfold j; lia).
   assert (HE : (top + BIAS P - 2) * 2 ^ MB P + 2 ^ MB P = (top + BIAS P - 1) * 2 ^ MB P) by ring.
@@ -285,19 +292,87 @@ Proof.
       rewrite Hadj, !Z.add_0_r.
       symmetry in E2. apply Z.eqb_eq in E2.
       assert (Hex : (2 ^ MB P + t / 2 ^ k) * 2 ^ k = a).
-      { rewrite <- Hdiv'. pose proof (Z.div_mod a (2 ^ k) ltac:(pose proof (pow2_pos k); lia)). lia. }
+      { replace (L - 1 - k) with (MB P) in Hdiv by (unfold k; lia). rewrite <- Hdiv. pose proof (Z.div_mod a (2 ^ k) ltac:(pose proof (pow2_pos k); lia)). lia. }
       rewrite Hex, Z.compare_refl.
       destruct (Z.leb_spec ((2 * BIAS P + 1) * 2 ^ MB P) ((top + BIAS P - 1) * 2 ^ MB P + t / 2 ^ k)); [exfalso; nia|].
       reflexivity.
     + rewrite E1, Hdiv in E3. replace (L - 1 - k) with (MB P) in E3 by (unfold k; lia).
+      rewrite <- Z.add_assoc in E3.
       rewrite (E3 Hz). unfold round_to_even_adjustment.
       destruct ((6 <=? round_bits a k) || (round_bits a k =? 3)).
       * destruct (Z.leb_spec ((2 * BIAS P + 1) * 2 ^ MB P) ((top + BIAS P - 1) * 2 ^ MB P + (t / 2 ^ k + 1))) as [G|G].
-        -- f_equal. nia.
-        -- f_equal. lia.
+        -- f_equal; nia.
+        -- f_equal; lia.
       * rewrite !Z.add_0_r.
         destruct (Z.leb_spec ((2 * BIAS P + 1) * 2 ^ MB P) ((top + BIAS P - 1) * 2 ^ MB P + t / 2 ^ k)); [exfalso; nia|].
         reflexivity.
 Qed.
 
+(** a negative mantissa: same magnitude pattern, sign bit set, error sign mirrored *)
+Lemma encode_neg a exp : 0 < a ->
+  encode_asis P (- a) exp =
+    (fst (encode_asis P a exp) + 2 ^ (W P - 1), CompOpp (snd (encode_asis P a exp))).
+Proof.
+  intros Ha. unfold encode_asis.
+  destruct (Z.eqb_spec (- a) 0); [lia|]. destruct (Z.eqb_spec a 0); [lia|].
+  destruct (Z.ltb_spec (- a) 0); [|lia]. destruct (Z.ltb_spec a 0); [lia|].
+  rewrite Z.abs_opp. cbv zeta.
+  repeat match goal with
+  | |- context [if ?b then _ else _] => destruct b; cbn [fst snd CompOpp]
+  | |- context [let '(_, _) := ?x in _] => destruct x; cbn [fst snd CompOpp]
+  end; f_equal; lia.
+Qed.
+
+Lemma frac_of_opp a exp : frac_of (- a) exp = (- fst (frac_of a exp), snd (frac_of a exp)).
+Proof. unfold frac_of. destruct (0 <=? exp); cbn [fst snd]; f_equal; ring. Qed.
+
+Lemma frac_of_pos a exp : 0 < a -> 0 < fst (frac_of a exp) /\ 0 < snd (frac_of a exp).
+Proof.
+  intros. unfold frac_of. destruct (Z.leb_spec 0 exp); cbn [fst snd].
+  - pose proof (pow2_pos exp ltac:(lia)). split; nia.
+  - pose proof (pow2_pos (- exp) ltac:(lia)). lia.
+Qed.
+
+Lemma f_sign : sign_bit f = 2 ^ (W P - 1).
+Proof. unfold sign_bit, f, fmt_of; cbn [ebits prec]. f_equal. lia. Qed.
+
+(** FloatEncoding::encode is round-to-nearest-even with the true error sign, for every mantissa
+    of the signed W-bit type (|mantissa| <= 2^(W-1)) and every exponent *)
+Theorem encode_correct m exp : blen (Z.abs m) <= W P ->
+  encode_asis P m exp = ieee_rne f (fst (frac_of m exp)) (snd (frac_of m exp)).
+Proof.
+  intros Hm. destruct (Z.lt_trichotomy m 0) as [Hneg|[->|Hpos]].
+  - replace m with (- (- m)) by lia. rewrite encode_neg by lia.
+    rewrite frac_of_opp. cbn [fst snd].
+    destruct (frac_of_pos (- m) exp ltac:(lia)) as [H1 H2].
+    rewrite ieee_rne_opp by assumption. rewrite f_sign.
+    rewrite (Z.abs_neq m) in Hm by lia. rewrite encode_pos by (try assumption; lia). reflexivity.
+  - unfold encode_asis, ieee_rne, ieee_round, frac_of. destruct (0 <=? exp); reflexivity.
+  - rewrite (Z.abs_eq m) in Hm by lia. apply encode_pos; assumption.
+Qed.
+
 End Encode.
+
+(** the two instances of base/src/bit.rs *)
+Theorem encode_f32_correct m exp : - 2 ^ 31 <= m < 2 ^ 31 ->
+  encode_asis P32 m exp = ieee_rne F32 (fst (frac_of m exp)) (snd (frac_of m exp)).
+Proof.
+  intros Hm. change F32 with (fmt_of P32).
+  apply encode_correct; [cbn; lia | cbn; lia | reflexivity | cbn; lia | reflexivity | reflexivity | right; reflexivity | ].
+  destruct (Z.eq_dec m 0) as [->|]; [cbn; lia|].
+  change (W P32) with (31 + 1). apply blen_le_iff'; lia.
+Qed.
+
+Theorem encode_f64_correct m exp : - 2 ^ 63 <= m < 2 ^ 63 ->
+  encode_asis P64 m exp = ieee_rne F64 (fst (frac_of m exp)) (snd (frac_of m exp)).
+Proof.
+  intros Hm. change F64 with (fmt_of P64).
+  apply encode_correct; [cbn; lia | cbn; lia | reflexivity | cbn; lia | reflexivity | reflexivity | left; reflexivity | ].
+  destruct (Z.eq_dec m 0) as [->|]; [cbn; lia|].
+  change (W P64) with (63 + 1). apply blen_le_iff'; lia.
+Qed.
+
+Example encode_f64_quarter_bit : encode_asis P64 (2 ^ 54 + 3) 0 = (4850376798678024193, Gt).
+Proof. reflexivity. Qed.
+Example encode_f32_min_subnormal : encode_asis P32 3 (-151) = (1, Gt).
+Proof. reflexivity. Qed.
